@@ -26,26 +26,28 @@ def maxPlusOne : List Int → Option Int
 /-- number of non-negative labels among the first `i` -/
 def countNonneg (labels : List Int) (i : Nat) : Nat := ((labels.take i).filter (0 ≤ ·)).length
 
-/-- `get_membership(labels, n_labels=…)`: the CSR arrays of
-    `csr_matrix((ones, (arange(n)[ix], labels[ix])), shape=(n, n_labels))` -/
-def getMembership (labels : List Int) (nLabels : Option Nat) : Except PyErr (Csr Rat) :=
-  let n := labels.length
-  let cols : Except PyErr Int := match nLabels with
-    | some k => .ok (k : Int)
-    | none => match maxPlusOne labels with
-      | none => .error .valueError            -- max() of an empty sequence
-      | some m => .ok m
-  match cols with
-  | .error e => .error e
-  | .ok m =>
-    if m < 0 then .error .valueError          -- 'shape' elements cannot be negative
-    else
-      let kept := labels.filter (0 ≤ ·)
-      if kept.any (fun l => m ≤ l) then .error .valueError   -- column index exceeds matrix dimension
-      else .ok { nRow := n, nCol := m.toNat,
-                 indptr := (tab (n+1) fun i => countNonneg labels i).toArray,
-                 indices := (kept.map Int.toNat).toArray,
-                 data := (kept.map fun _ => (1 : Rat)).toArray }
+/-- number of columns of the membership matrix: `n_labels`, else `max(labels) + 1` -/
+def membershipCols (labels : List Int) (nLabels : Option Nat) : Except PyErr Int :=
+  match nLabels with
+  | some k => .ok (k : Int)
+  | none => match maxPlusOne labels with
+    | none => .error .valueError            -- max() of an empty sequence
+    | some m => .ok m
+
+/-- the CSR arrays of `csr_matrix((ones, (arange(n)[ix], labels[ix])), shape=(n, m))`, `ix = labels >= 0` -/
+def membershipCsr (labels : List Int) (m : Int) : Csr Rat :=
+  let kept := labels.filter (0 ≤ ·)
+  { nRow := labels.length, nCol := m.toNat,
+    indptr := (tab (labels.length + 1) fun i => countNonneg labels i).toArray,
+    indices := (kept.map Int.toNat).toArray,
+    data := (kept.map fun _ => (1 : Rat)).toArray }
+
+/-- `get_membership(labels, n_labels=…)` -/
+def getMembership (labels : List Int) (nLabels : Option Nat) : Except PyErr (Csr Rat) := do
+  let m ← membershipCols labels nLabels
+  if m < 0 then .error .valueError          -- 'shape' elements cannot be negative
+  else if (labels.filter (0 ≤ ·)).any (fun l => m ≤ l) then .error .valueError   -- column index exceeds matrix dimension
+  else .ok (membershipCsr labels m)
 
 /-- `get_degrees(matrix)`: `indptr[1:] - indptr[:-1]` -/
 def degrees (c : Csr α) : List Nat := tab c.nRow fun i => c.indptr.getD (i+1) 0 - c.indptr.getD i 0
